@@ -766,6 +766,15 @@ theorem callbacks_once_partial (s s' : State) (t c n n' : Nat) (rest : List Nat)
     | cons a b => cases keep <;> simp [State.setC]
   · simp at h
 
+/-! ## facts about the constants taken from the source (re-generated on every run) -/
+
+/-- the model's initial state has `lastAttempt = 0`: that is `IOBase._last_connect_attempt` of the source -/
+theorem initial_attempt_is_model_init : Frappy.Generated.C16.initialLastAttempt = ({ cfg := findingCfgA } : State).lastAttempt := by
+  decide
+
+/-- `AsynConn.timeout` (the `gran` of the time clauses) is one second, as the harness and the examples assume -/
+theorem recv_granularity_is_one_second : Frappy.Generated.C16.recvGranularity = 1000000 := by decide
+
 /-! ## non-vacuity of the run-level theorems: `atomicRun` and `healRun` are accepted and meet the hypotheses -/
 
 example : Accepted findingCfgA [0, 1] healRun := by unfold Accepted; decide
